@@ -29,7 +29,7 @@ class H(Hooks):
     def field(self, base, name, e):
         if base == ("self",):
             return ("selffield", name)
-        if base == ("grammar",):
+        if isinstance(base, tuple) and base and base[0] == "grammar":
             if name == "operands":
                 return ("list", [("lop", i) for i in range(len(self.kinds))])
             if name == "opcode":
@@ -159,3 +159,49 @@ def any_panic(ctx):
         if isinstance(r, tuple) and r and r[0] == "panic":
             return (quants, words, r[1])
     return None
+
+
+class SH(H):
+    """parse_spec_constant_op: the opcode literal, then the nested opcode's operands"""
+
+    def __init__(self, fits, known, kinds):
+        H.__init__(self, kinds, ["One"] * len(kinds), 100, "IAdd")
+        self.fits, self.known = fits, known
+
+    def path(self, p):
+        if p.endswith("lookup_opcode"):
+            return ("fnref", p)
+        return H.path(self, p)
+
+    def call(self, p, args, e):
+        if p.endswith("u16::try_from") and len(args) == 1:
+            return ("ok", ("narrowed", args[0])) if self.fits else ("err", ("sym", "TryFromIntError"))
+        if p.endswith("lookup_opcode") and len(args) == 1:
+            a = args[0]
+            if isinstance(a, tuple) and a[0] == "narrowed" and self.known:
+                return ("some", ("grammar",))
+            if isinstance(a, tuple) and a[0] == "as16":
+                return ("some", ("grammar", "truncated")) if self.known else NONE
+            return NONE
+        return H.call(self, p, args, e)
+
+    def cast(self, v, ty, e):
+        if ty in ("u16", "u8") and v == ("sym", "NUMBER"):
+            return ("as16", v)
+        return NotImplemented
+
+    def mcall(self, recv, m, args, e, ev):
+        if recv == ("selffield", "decoder") and m == "bit32":
+            return ("ok", ("sym", "NUMBER"))
+        return H.mcall(self, recv, m, args, e, ev)
+
+
+def spec_eval(ctx, fits, known, kinds):
+    f = ctx.rspirv.fn(PAR, "parse_spec_constant_op", "Parser")
+    h = SH(fits, known, kinds)
+    ev = SymEval(h, "parse_spec_constant_op")
+    try:
+        r = ev.run(f, {})
+    except SPanic as x:
+        return ("panic", str(x)), h
+    return r, h
